@@ -423,6 +423,13 @@ func rsFineVariants() []*rsFineVariant {
 		}
 		out = append(out, &rsFineVariant{Held: rsP(1, 1), Between: []rsOp{rsP(2, 0), rq3}, Note: "held task queued a retry; QoS0 and another request between SetClient and init"})
 	}
+	// several requests waiting while the task goroutine is busy and the client is replaced: they run in
+	// submission order on the new connection
+	p3 := func(u int, q byte) rsOp { o := rsP(u, q); o.Payload = []byte{byte(u)}; return o }
+	out = append(out, &rsFineVariant{Held: rsP(1, 0), Before: []rsOp{p3(2, 1), p3(3, 1), p3(4, 1)}, Note: "three requests queued before the redial while the task goroutine is busy"})
+	out = append(out, &rsFineVariant{Held: rsP(1, 0), Between: []rsOp{p3(2, 1), p3(3, 2), p3(4, 1)}, MethodB: true, Note: "three requests between SetClient and init while the task goroutine is busy"})
+	out = append(out, &rsFineVariant{Held: rsP(1, 0), Before: []rsOp{p3(2, 2)}, Between: []rsOp{p3(3, 1)}, After: []rsOp{p3(4, 1), p3(5, 0)}, Note: "requests queued before the redial, between SetClient and init, and after the switch was noticed"})
+	out = append(out, &rsFineVariant{Held: rsP(1, 1), Before: []rsOp{p3(2, 1), p3(3, 1)}, Between: []rsOp{p3(4, 1)}, Note: "held task queued a retry; three requests behind it"})
 	// pinned inside a Retry pass (OnError of a deferred request whose write was cut) while the loop has already
 	// installed and initialised the next client: the rest of the pass still belongs to the old connection
 	for _, q := range []byte{1, 2} {
